@@ -245,6 +245,66 @@ func TestC13(t *testing.T) {
 		}
 		synctest.Test(t, func(t *testing.T) { c13Run(t, run, sc) })
 	}
+	for k := 0; k < run.N(16, 400); k++ {
+		desc := map[string]any{"idx": k, "kind": "bounced-by-a-draining-target-then-forwarded"}
+		if !run.Mine(n+k, desc) {
+			continue
+		}
+		synctest.Test(t, func(t *testing.T) { c13Bounced(t, run, k, run.Rand(n+k)) })
+	}
+}
+
+// c13Bounced: a request that passed the pause gate, was turned away by a draining target (a pause
+// had begun meanwhile), went back to the gate, and is forwarded after resume - its response is the
+// target's, unaltered, like any other (a streamed body without Content-Length, so that nothing a
+// middleware might add afterwards is cut off by the framing).
+func c13Bounced(t *testing.T, run *Run, idx int, rng *rand.Rand) {
+	w := NewWorld(t, WorldOpt{})
+	defer w.Close()
+	run.Eval()
+	const svc = "svc"
+	w.AddTarget("b0:80", nil)
+	so := DefSO
+	if rng.IntN(2) == 0 {
+		so.ErrorPagePath = Fixtures() + "/pagesboth"
+	}
+	if c := w.Deploy(svc, []string{"b0:80"}, so, DefTO, 5*time.Second, time.Second); c.Err != "" {
+		run.Inconclusive("setup: %s", c.Err)
+		return
+	}
+	T := time.Second
+	gate := pick(rng, []string{"pause", "pause", "stop-then-resume"})
+	w.GoReq(T-10*time.Millisecond+OffArrival, Req{ID: "slow", Host: "c13.example", Path: "/slow", Lat: time.Duration(150+rng.IntN(200))*time.Millisecond + OffTarget})
+	n := 1 + rng.IntN(4)
+	for k := 0; k < n; k++ {
+		id := fmt.Sprintf("b%d", k)
+		w.SetReqDelay(id, "service.gate.passed", time.Duration(20+rng.IntN(40))*time.Millisecond+OffHook)
+		w.GoReq(T-time.Duration(1+rng.IntN(6))*time.Millisecond+OffArrival, Req{ID: id, Host: "c13.example", Path: "/stream", Mode: "stream", Gap: 30 * time.Millisecond})
+	}
+	w.At(T, func() { w.Pause(svc, 5*time.Second, 100*time.Second) })
+	w.At(T+time.Second, func() { w.Resume(svc) })
+	_ = gate
+	w.Wait()
+	bounced := 0
+	for _, h := range w.Hooks {
+		if h.Point == "lb.claimed" && strings.HasPrefix(h.Req, "b") && strings.Contains(h.Extra, "err=") {
+			bounced++
+		}
+	}
+	for _, r := range w.RespLog() {
+		if !strings.HasPrefix(r.ID, "b") {
+			continue
+		}
+		if r.Status != 200 || r.Target != "b0:80" || string(r.Body) != "part1part2" {
+			run.Violate("response-altered:bounced-request", fmt.Sprintf("request %s passed the gate, was turned away by the draining target when pause began, and was forwarded after resume: status=%d target=%q body %d bytes %q (the target sent \"part1part2\")", r.ID, r.Status, r.Target, len(r.Body), trunc(string(r.Body), 80)), map[string]any{"idx": idx, "requests": n}, func() []string { return w.Trace(200) })
+			return
+		}
+	}
+	if bounced == 0 {
+		run.Count("bounce_not_reached", 1)
+		return
+	}
+	run.Class(fmt.Sprintf("bounced|n%d|pages=%v", n, so.ErrorPagePath != ""))
 }
 
 type c13Echo struct {
